@@ -83,9 +83,21 @@ def main():
         finally:
             sh(['git', 'checkout', '--', '.'], cwd=REPO)
             sh(['git', 'clean', '-fdq'], cwd=REPO)
+    # rows of earlier runs for seeds not re-run now are kept
+    old = {}
+    try:
+        for l in open(os.path.join(sdir, 'RESULTS.md')):
+            if l.startswith('| C'):
+                c = [x.strip() for x in l.strip().strip('|').split('|')]
+                old[(c[0], c[1])] = tuple(c)
+    except OSError:
+        pass
+    for r in rows:
+        old[(r[0], r[1])] = tuple(str(x) for x in r)
+    rows_all = [old[k] for k in sorted(old)]
     with open(os.path.join(sdir, 'RESULTS.md'), 'w') as f:
         f.write('# Seeded defects vs. checks (tier %s)\n\n| seeded change | check | verdict | how | s |\n|---|---|---|---|---|\n' % tier)
-        for r in rows:
+        for r in rows_all:
             f.write('| %s | %s | %s | %s | %s |\n' % r)
     missed = [r for r in rows if r[2] != 'DETECTED']
     print('%d runs, %d not detected' % (len(rows), len(missed)))
